@@ -264,6 +264,22 @@ func prefixes(c *runlib.Ctx, sh *enum.Sharder) {
 		}
 	})
 
+	// Full-width shapes (up to 45 bytes without the suffix) and long zones.
+	gen.WideIPCandidates(1, all, func(s string) {
+		for _, suf := range prefixSuffixes {
+			one("prefix-wide-shapes", s+suf)
+		}
+	})
+
+	for _, zl := range []int{1, 20, 30, 40, 64, 200} {
+		z := strings.Repeat("z", zl)
+		for _, a := range []string{"fe80::1", "fe80:0000:0000:0000:0000:0000:0000:0001", "::ffff:255.255.255.255", "1.2.3.4"} {
+			for _, suf := range []string{"", "/64", "/128"} {
+				one("prefix-long-zones", a+"%"+z+suf)
+			}
+		}
+	}
+
 	// Zones, IPv4-mapped addresses, blanks, and suffixes with more bytes.
 	addrs := []string{
 		"fe80::1%eth0", "fe80::1%25eth0", "fe80::1%", "fe80::1%%", "::%z", "1.2.3.4%eth0", "::ffff:1.2.3.4%z", "::ffff:1.2.3.4",
